@@ -33,6 +33,30 @@ chk("C16",
     "Trusted: dsim/ref/queue.py. <= 10 labels, <= 200 ops; strategies are inert objects.",
     "6.16")
 
+SEARCH_NOTE = ("Trusted: the words world (dsim/worlds/words.py; every rule it produces is re-checked to be a bijection by brute force), "
+               "brute-force enumeration for n <= 6, the reference LFP. Universes capped at 300 work packets; alphabets <= 3 letters.")
+
+chk("C01",
+    "deterministic simulation: whole searches run under a simulated clock (slice boundaries, time-limit interrupts, jitter, stalls, backward steps), a controlled random source, pickle restarts and a seeded client call sequence; every returned specification is counted against brute force",
+    "Seeded exploration over (world, pack, rule DB, schedule, faults). Evidence over the sampled schedules, not a proof.",
+    SEARCH_NOTE, "6.1")
+
+chk("C02",
+    "deterministic simulation: same simulated searches as C01; every returned specification and raw rule list is checked by an independent structural validator and a reference least-fixed-point productivity computation",
+    "Seeded exploration over (world, pack, rule DB, schedule, faults); validator shares no code with the library.",
+    SEARCH_NOTE, "6.2")
+
+chk("C04",
+    "deterministic simulation: simulated searches with a recording rule DB; invariants evaluated at every rule-insertion event of the run (labels, children, genuineness by fresh re-application, stored key / empty rules), with buggified strategies (lazy does-not-apply, factories, foreign parents, duplicates, symmetries, inferral chains)",
+    "Seeded exploration; invariants are checked at every add(start, ends, rule) along the whole run, for all three rule DBs.",
+    SEARCH_NOTE, "6.4")
+
+chk("C05",
+    "deterministic simulation: seeded insertion/query histories into the real default and forget rule DBs (queries between arbitrary insertions) and seeded rule dictionaries into every tree finder under controlled clock and random source, vs greatest-fixed-point / bottom-up references collapsed by SCC, a tree validator and brute-force minimum tree size",
+    "Seeded exploration of histories, random-source policies and minimisation-loop lengths.",
+    "Trusted: dsim/ref/trees.py, dsim/ref/graph.py. <= 10 labels. Known finding K1 (breadth-first generator) is reported as KNOWN-FINDING.",
+    "6.5")
+
 NA.update({
  "C07": "pure function of (specification, n, parameters): no clock, random source, I/O, ordering or restart point is involved, so there is no schedule or fault for a simulator to vary (DESIGN.md section 7)",
  "C09": "pure function of (rule form, n) given the children's term tables; nothing schedule-, fault- or history-dependent (DESIGN.md section 7)",
